@@ -22,7 +22,9 @@ MANIFEST = {
             "(self-checked); the hand-written assembly model (checked by correspondence only). Not proved: that the von Karman closed "
             "form IS a squared-distance kernel (H2, needs Bessel functions; sampled via min-eigenvalue), the effect of the 1e-20 "
             "regularisation of separations (theorems Gram/PSD are for eps=0; the per-entry theorem holds for every eps), float32 "
-            "storage and IEEE rounding. The pinned tree violated the property in three ways; fixes/C01-*.diff repair them.",
+            "storage and IEEE rounding. A layer exactly AT the altitude of a laser guide star is outside the domain (projected "
+            "diameter 0: the code divides by zero, Lean's x/0=0 makes the statements empty there; `WellPosed`, `entry_eq_cov_wellposed`). "
+            "The pinned tree violated the property in four ways; fixes/C01-*.diff repair them.",
     "technique": "Lean 4 proof (polarisation/Gram argument, index arithmetic by induction) over a hand-written model tied to "
                  "translator-regenerated kernels + differential correspondence + brute-force Gram oracle",
 }
@@ -32,7 +34,9 @@ REQUIRED = ["kernel_xx_is_generated", "kernel_yy_is_generated", "kernel_xy_is_ge
             "entry_lower_eq_cov", "upper_zero_before_mirror", "entry_eq_cov",
             "ordering_onto", "ordering_injective", "ordering_sensors", "ordering_x_then_y",
             "mirror_correct", "assembled_symm", "assembled_eq_gram", "assembled_posSemidef",
-            "additive_layers", "scale_wavelength", "scale_r0", "vk_scales_r0", "where_ordering"]
+            "additive_layers", "scale_wavelength", "scale_r0", "vk_scales_r0", "where_ordering",
+            "scale_r0_layers", "scale_r0_vk", "layerDiam_ne_zero", "layer_at_gs_altitude", "slope_is_quotient",
+            "entry_eq_cov_wellposed", "where_links_cfg", "nsub_eq_mask_sum"]
 T1_NAMES = ["structure_function_vk", "compute_covariance_xx", "compute_covariance_yy", "compute_covariance_xy"]
 EPS = 1e-20
 TOL = 1e-5          # relative to the largest |entry| of the expected matrix (float32 storage: 6e-8 per accumulation)
@@ -58,7 +62,56 @@ def point_symmetric(m):
     return bool((a == a[::-1, ::-1]).all())
 
 
-def gen_cfg(rng, max_wfs=3, max_n=4, max_total=12, dyadic=False, lam_units=True):
+# how each constructor argument is handed over: the property quantifies over the VALUES; the library's docstring says
+# "ndarray" but lists, tuples, integer and single-precision arrays of the same values are the same configuration
+FIELDS = ("diam", "gs_alt", "gs_pos", "lam", "lalt", "r0", "L0")
+EXACT_KINDS = ("f64", "list", "tuple", "int", "intlist")     # same binary64 arithmetic as the model (geometry bit-exact)
+ALL_KINDS = EXACT_KINDS + ("f32",)
+
+
+def _field_values(cfg, f):
+    if f in ("lalt", "r0", "L0"):
+        key = {"lalt": "alt", "r0": "r0", "L0": "L0"}[f]
+        return [l[key] for l in cfg["layers"]], lambda i, v: cfg["layers"][i].__setitem__(key, v)
+    if f == "gs_pos":
+        return None, None
+    return [w[f] for w in cfg["wfs"]], lambda i, v: cfg["wfs"][i].__setitem__(f, v)
+
+
+def assign_types(cfg, rng, kinds=ALL_KINDS, p_plain=0.35):
+    """choose container/dtype per argument and make the VALUES representable in it (integers for the integer kinds,
+    single-precision numbers for float32), so that the oracle and the model see the numbers the library receives"""
+    types = {}
+    if rng.random() >= p_plain:
+        for f in FIELDS:
+            types[f] = rng.choice(kinds) if rng.random() < 0.6 else "f64"
+    for f, k in list(types.items()):
+        if k in ("int", "intlist"):
+            if f == "gs_pos":
+                for w in cfg["wfs"]:
+                    w["gs_pos"] = [float(round(v)) for v in w["gs_pos"]]
+                continue
+            vals, put = _field_values(cfg, f)
+            for i, v in enumerate(vals):
+                iv = float(round(v))
+                if f in ("diam", "lam", "r0", "L0") and iv < 1:
+                    iv = 1.0                  # positive quantities stay positive
+                put(i, iv)
+            # a layer must stay strictly below every finite guide-star altitude: rounding keeps 18000 < 20000
+        elif k == "f32":
+            if f == "gs_pos":
+                for w in cfg["wfs"]:
+                    w["gs_pos"] = [float(numpy.float32(v)) for v in w["gs_pos"]]
+                continue
+            vals, put = _field_values(cfg, f)
+            for i, v in enumerate(vals):
+                put(i, float(numpy.float32(v)))
+    if types:
+        cfg["types"] = types
+    return cfg
+
+
+def gen_cfg(rng, max_wfs=3, max_n=4, max_total=12, dyadic=False, lam_units=True, types=True, kinds=ALL_KINDS):
     """a configuration drawn from the property's domain: positive diameters / r0 / L0 / wavelengths, layers strictly below
     every finite guide-star altitude"""
     while True:
@@ -78,9 +131,12 @@ def gen_cfg(rng, max_wfs=3, max_n=4, max_total=12, dyadic=False, lam_units=True)
         for w in wfs:
             w["diam"] = rng.choice([0.25, 0.5, 1.0, 2.0])
             w["gs_alt"] = rng.choice([0.0, 0.0, 16384.0, 32768.0])
-            w["gs_pos"] = [0.0, 0.0]
+            # off-axis too: the translation θ·π/180/3600·h is not dyadic, but model and code perform the same binary64
+            # operations in the same order (the `geom` comparison is bit-exact), so the stand-in stays exact
+            w["gs_pos"] = [0.0, 0.0] if rng.random() < 0.4 else [float(rng.randint(-40, 40)), float(rng.randint(-40, 40))]
             w["lam"] = rng.choice([1.0, 2.0, 0.5, 5e-7, 1.65e-6])
-        return {"D": D, "wfs": wfs, "layers": layers}
+        cfg = {"D": D, "wfs": wfs, "layers": layers}
+        return assign_types(cfg, rng, kinds=EXACT_KINDS) if types else cfg
     D = rng.choice([1.0, 4.0, 4.2, 8.0, 39.0])
     nl = rng.randint(1, 3)
     layers = []
@@ -99,7 +155,19 @@ def gen_cfg(rng, max_wfs=3, max_n=4, max_total=12, dyadic=False, lam_units=True)
         w["gs_alt"] = rng.choice([0.0, rng.uniform(20000., 30000.), 90000.0])
         w["gs_pos"] = [0.0, 0.0] if rng.random() < 0.3 else [rng.uniform(-40, 40), rng.uniform(-40, 40)]
         w["lam"] = rng.choice([5e-7, 5.89e-7, 1.65e-6]) * unit
-    return {"D": D, "wfs": wfs, "layers": layers}
+    cfg = {"D": D, "wfs": wfs, "layers": layers}
+    return assign_types(cfg, rng, kinds=kinds) if types else cfg
+
+
+def retyped(cfg, field, **changes):
+    """cfg with `changes`, the modified argument handed over as float64 where its old container could not hold the new values"""
+    t = dict(cfg.get("types") or {})
+    if t.get(field) in ("int", "intlist", "f32"):
+        t[field] = "f64"
+    out = dict(cfg, **changes)
+    if t:
+        out["types"] = t
+    return out
 
 
 def classes(cfg):
@@ -111,19 +179,79 @@ def classes(cfg):
     out.append("diam:" + ("equal" if len({w["diam"] for w in cfg["wfs"]}) == 1 else "unequal"))
     out.append("lam:" + ("equal" if len({w["lam"] for w in cfg["wfs"]}) == 1 else "unequal"))
     out.append("elevated-layer" if any(l["alt"] != 0 for l in cfg["layers"]) else "ground-only")
+    out.append("nsub:" + ("equal" if len({sum(map(sum, w["mask"])) for w in cfg["wfs"]}) == 1 else "unequal"))
+    for f, k in sorted((cfg.get("types") or {}).items()):
+        if k != "f64":
+            out.append("arg:%s:%s" % (f, k))
     return out
 
 
-def make_object(cfg, threads=1, as_lists=False):
-    from aotools.turbulence import slopecovariance as sc
+def _conv(values, kind):
+    if kind == "list":
+        return [float(v) for v in values]
+    if kind == "tuple":
+        return tuple(float(v) for v in values)
+    if kind == "intlist":
+        return [int(v) for v in values]
+    if kind == "int":
+        return numpy.array([int(v) for v in values], dtype=int)
+    if kind == "f32":
+        return numpy.array(values, dtype=numpy.float32)
+    return numpy.array(values, dtype=float)
+
+
+def _conv2(rows, kind):
+    if kind in ("list", "tuple", "intlist"):
+        return [_conv(r, kind) for r in rows]
+    if kind == "int":
+        return numpy.array([[int(v) for v in r] for r in rows], dtype=int)
+    return numpy.array(rows, dtype=numpy.float32 if kind == "f32" else float)
+
+
+def make_inputs(cfg, as_lists=False):
+    """the constructor arguments, in the containers / dtypes `cfg["types"]` asks for (default: float64 ndarrays)"""
     ws, ls = cfg["wfs"], cfg["layers"]
-    masks = [numpy.array(w["mask"]) for w in ws]
-    conv = (lambda x: list(x)) if as_lists else (lambda x: numpy.array(x, dtype=float))
-    return sc.CovarianceMatrix(
-        len(ws), masks, cfg["D"], conv([w["diam"] for w in ws]), conv([w["gs_alt"] for w in ws]),
-        [list(w["gs_pos"]) for w in ws] if as_lists else numpy.array([w["gs_pos"] for w in ws], dtype=float),
-        conv([w["lam"] for w in ws]), len(ls), conv([l["alt"] for l in ls]), conv([l["r0"] for l in ls]),
-        conv([l["L0"] for l in ls]), threads=threads)
+    t = dict(cfg.get("types") or {})
+    if as_lists:
+        t = {f: "list" for f in FIELDS}
+    k = lambda f: t.get(f, "f64")
+    return {"n_wfs": len(ws), "pupil_masks": [numpy.array(w["mask"]) for w in ws], "telescope_diameter": cfg["D"],
+            "subap_diameters": _conv([w["diam"] for w in ws], k("diam")),
+            "gs_altitudes": _conv([w["gs_alt"] for w in ws], k("gs_alt")),
+            "gs_positions": _conv2([w["gs_pos"] for w in ws], k("gs_pos")),
+            "wfs_wavelengths": _conv([w["lam"] for w in ws], k("lam")),
+            "n_layers": len(ls), "layer_altitudes": _conv([l["alt"] for l in ls], k("lalt")),
+            "layer_r0s": _conv([l["r0"] for l in ls], k("r0")), "layer_L0s": _conv([l["L0"] for l in ls], k("L0"))}
+
+
+def object_from(inputs, threads=1):
+    from aotools.turbulence import slopecovariance as sc
+    return sc.CovarianceMatrix(threads=threads, **inputs)
+
+
+def make_object(cfg, threads=1, as_lists=False):
+    return object_from(make_inputs(cfg, as_lists), threads)
+
+
+def snapshot(x):
+    """a deep copy that remembers container type, dtype and every value"""
+    if isinstance(x, numpy.ndarray):
+        return ("nd", x.dtype.str, x.shape, x.copy())
+    if isinstance(x, (list, tuple)):
+        return (type(x).__name__, [snapshot(v) for v in x])
+    if isinstance(x, dict):
+        return ("dict", {k: snapshot(v) for k, v in x.items()})
+    return ("v", type(x).__name__, x)
+
+
+def same_as_snapshot(x, snap):
+    if isinstance(x, numpy.ndarray):
+        return snap[0] == "nd" and snap[1] == x.dtype.str and snap[2] == x.shape and numpy.array_equal(x, snap[3], equal_nan=True)
+    if isinstance(x, (list, tuple)):
+        return snap[0] == type(x).__name__ and len(snap[1]) == len(x) and all(same_as_snapshot(v, sv) for v, sv in zip(x, snap[1]))
+    if isinstance(x, dict):
+        return snap[0] == "dict" and set(snap[1]) == set(x) and all(same_as_snapshot(v, snap[1][k]) for k, v in x.items())
+    return snap[0] == "v" and snap[1] == type(x).__name__ and snap[2] == x
 
 
 def build(cfg, threads=1, as_lists=False):
@@ -181,11 +309,17 @@ def gram_truth(cfg, sf=dvk):
 def check_config(cfg, fail, extra=True, tag=""):
     """the property on the real code for one configuration; calls fail(key, what) for each violated clause"""
     before = copy.deepcopy(cfg)
+    inputs = make_inputs(cfg)
+    snap = snapshot(inputs)              # taken BEFORE the library sees the arguments
     try:
-        got = build(cfg)
+        with numpy.errstate(all="ignore"):
+            got = object_from(inputs).make_covariance_matrix()
     except Exception as ex:
-        fail("raises:" + type(ex).__name__, "make_covariance_matrix raised %s: %s" % (type(ex).__name__, ex))
+        how = ",".join("%s:%s" % (f, k) for f, k in sorted((cfg.get("types") or {}).items()) if k != "f64")
+        fail("raises:" + type(ex).__name__, "%smake_covariance_matrix raised %s: %s%s"
+             % (tag, type(ex).__name__, ex, " (arguments given as %s)" % how if how else ""))
         return None
+    mutated = [f for f in inputs if not same_as_snapshot(inputs[f], snap[1][f])]
     exp, rows = gram_truth(cfg)
     n = len(rows)
     if got.shape != (n, n):
@@ -219,8 +353,19 @@ def check_config(cfg, fail, extra=True, tag=""):
     ev = numpy.linalg.eigvalsh((g + g.T) / 2)
     if ev.min() < -TOL * max(numpy.trace(g), scale):
         fail("psd", "%ssmallest eigenvalue %.3g, trace %.3g" % (tag, ev.min(), numpy.trace(g)))
-    if cfg != before:
-        fail("inputs-mutated", "the configuration passed in was modified")
+    if mutated or cfg != before:
+        fail("inputs-mutated", "%sthe caller's constructor arguments were modified by the build: %s" % (tag, ", ".join(mutated) or "cfg"))
+    # a second object made from the VERY SAME argument objects must give the same matrix (a view of the caller's array
+    # converted or shifted in place shows here even where the first build is right)
+    try:
+        with numpy.errstate(all="ignore"):
+            again = object_from(inputs).make_covariance_matrix()
+        if again.shape != got.shape or not numpy.array_equal(again, got):
+            fail("repeat-call:same-arguments", "%sa second CovarianceMatrix built from the same argument objects returns a different "
+                 "matrix (max difference %.3g, max |entry| %.3g)" % (
+                     tag, numpy.abs(again.astype(float) - g).max() if again.shape == got.shape else float("nan"), scale))
+    except Exception as ex:
+        fail("raises:" + type(ex).__name__, "%sa second object from the same arguments raised %s: %s" % (tag, type(ex).__name__, ex))
     if not extra:
         return got
     try:
@@ -261,7 +406,7 @@ def _check_extra(cfg, fail, tag, got, g, scale, rows, n):
             out = numpy.asarray(sc.mirror_covariance_matrix(P.copy())).astype(float)
         want = (numpy.tril(P) + numpy.tril(P, -1).T).astype(float)
         if out.shape != want.shape or not numpy.isfinite(out).all() or numpy.abs(out - want).max() > TOL * numpy.abs(want).max():
-            cfg2 = dict(cfg, wfs=[dict(w, lam=w["lam"] * 2.0 ** m) for w in cfg["wfs"]])
+            cfg2 = retyped(cfg, "lam", wfs=[dict(w, lam=w["lam"] * 2.0 ** m) for w in cfg["wfs"]])
             got2 = build(cfg2).astype(float)
             exp2, _ = gram_truth(cfg2)
             if not numpy.isfinite(got2).all() or numpy.abs(got2 - exp2).max() > TOL * numpy.abs(exp2).max():
@@ -294,13 +439,13 @@ def check_scalings(cfg, rng, fail):
         if numpy.abs(build(p).astype(float) - base).max() > tol:
             fail("layer-order", "reversing the layer list changes the matrix by %.3g" % numpy.abs(build(p).astype(float) - base).max())
     f = rng.choice([0.5, 2.0, 3.0, 0.7])
-    c2 = dict(cfg, layers=[dict(l, r0=l["r0"] * f) for l in cfg["layers"]])
+    c2 = retyped(cfg, "r0", layers=[dict(l, r0=l["r0"] * f) for l in cfg["layers"]])
     m2 = build(c2).astype(float)
     if numpy.abs(m2 - f ** (-5. / 3) * base).max() > tol * max(1, f ** (-5. / 3)):
         fail("scale-r0", "all r0 × %g: matrix is not × %g^(-5/3) (max deviation %.3g, scale %.3g)"
              % (f, f, numpy.abs(m2 - f ** (-5. / 3) * base).max(), scale))
     mus = [rng.choice([0.5, 2.0, 3.0, 1.0]) for _ in cfg["wfs"]]
-    c3 = dict(cfg, wfs=[dict(w, lam=w["lam"] * m) for w, m in zip(cfg["wfs"], mus)])
+    c3 = retyped(cfg, "lam", wfs=[dict(w, lam=w["lam"] * m) for w, m in zip(cfg["wfs"], mus)])
     m3 = build(c3).astype(float)
     rows = rows_of(cfg)
     fac = numpy.array([mus[w] for (w, _, _) in rows])
@@ -324,7 +469,10 @@ def line(op, cfg, eps=EPS):
 
 
 def stand_in(sep, r0, L0):
-    return numpy.floor(16 * sep * sep + 0.5) * r0
+    # integer-valued, so that block placement compares exactly.  The offset 1/2 + 2^-12 keeps every separation of a dyadic
+    # geometry (16 r² is a multiple of 2^-8 there) at least 2^-12 away from the jumps of floor: off-axis guide stars add a
+    # non-dyadic translation whose rounding (1e-17) would otherwise decide on which side of a jump an on-grid value falls
+    return numpy.floor(16 * sep * sep + 0.500244140625) * r0
 
 
 def correspondence(chk, n_geom, n_place, n_build):
@@ -338,9 +486,9 @@ def correspondence(chk, n_geom, n_place, n_build):
                   json.dumps(cfg))
 
     for _ in range(n_geom):
-        cfg = gen_cfg(rng, max_total=16)
+        cfg = gen_cfg(rng, max_total=16, kinds=EXACT_KINDS)       # float32 arguments: the code then rounds to single precision
         try:
-            cm = make_object(cfg, as_lists=rng.random() < 0.3)
+            cm = make_object(cfg)
             with numpy.errstate(all="ignore"):
                 cm.make_covariance_matrix()
         except Exception as ex:
@@ -460,7 +608,7 @@ def oracle(chk, n, n_scal, n_mp, exhaustive):
     for _ in range(n):
         run_one(gen_cfg(rng, max_wfs=4 if rng.random() < 0.2 else 3), "random")
     for _ in range(n_scal):
-        cfg = gen_cfg(rng, max_total=10)
+        cfg = gen_cfg(rng, max_total=10, kinds=EXACT_KINDS)     # float32 arguments add single-precision noise of their own
         chk.oracle_cases += 1
         chk.count("scalings")
         chk.case(("scalings", json.dumps(cfg, sort_keys=True)))
@@ -471,9 +619,18 @@ def oracle(chk, n, n_scal, n_mp, exhaustive):
                      {"cfg": cfg, "what": "scalings"})
     # the multi-process assembly path (real pool)
     for _ in range(n_mp):
-        cfg = gen_cfg(rng, max_total=8)
+        # a system on which the two assembly paths have room to differ: >= 2 sensors whose projected diameters differ at an
+        # elevated layer (cov_xy != cov_yx), different numbers of sub-apertures if possible
+        for _try in range(200):
+            cfg = gen_cfg(rng, max_total=8)
+            ws = cfg["wfs"]
+            pd = lambda w, L: w["diam"] * (1 - (L["alt"] / w["gs_alt"] if w["gs_alt"] else 0))
+            if len(ws) >= 2 and any(L["alt"] > 0 and len({round(pd(w, L), 12) for w in ws}) > 1 for L in cfg["layers"]):
+                break
         chk.oracle_cases += 1
         chk.count("threads=2")
+        for c in classes(cfg):
+            chk.count("mp:" + c)
         chk.case(("mp", json.dumps(cfg, sort_keys=True)))
         try:
             got = build(cfg, threads=2)
@@ -524,7 +681,8 @@ def run(chk):
                 "float32 cast for one layer, 1e-6·max for several; matrices with the library's von Karman function 1e-5·max "
                 "(float32 storage). oracle: every entry vs a brute-force Gram matrix computed from the structure function alone "
                 "(1e-5·max), exact symmetry, λ_min ≥ -1e-5·trace, repeat-call identity, mirror = reflected lower triangle, layer "
-                "additivity/order, r0^(-5/3), λ_iλ_j (2e-6·max); distinct = distinct configurations")
+                "additivity/order, r0^(-5/3), λ_iλ_j (2e-6·max); the caller's argument objects compared with a snapshot taken before "
+                "the call and a second object built from the same argument objects compared bitwise; distinct = distinct configurations")
     chk.assumptions = [
         "H2: the von Karman structure function (with D(0)=0) is a squared-distance kernel ‖φu−φv‖² on ℝ² — hypothesis `IsSqDist` "
         "of the theorems, not proved (Mathlib has no Bessel functions); sampled by the oracle's minimum-eigenvalue test",
@@ -533,11 +691,23 @@ def run(chk):
         "float32 storage and IEEE rounding are not modelled (tolerance 1e-5 of the largest entry)",
         "the assembly/geometry model is hand-written: tied to the code by the Float correspondence only (kernels are tied by T1 + rfl)",
         "the multi-process path performs the same block writes (C03 proves scheduling independence); here it is exercised with a real pool",
+        "a layer AT the altitude of a guide star (h = alt ≠ 0) is outside the domain: the code divides by the projected diameter 0 "
+        "(inf/NaN), Lean's x/0 = 0 makes the model's entries 0 there (`layer_at_gs_altitude`); the theorems are statements about "
+        "slopes on `WellPosed` configurations (`entry_eq_cov_wellposed`, `slope_is_quotient`); the generators keep every layer "
+        "strictly below every finite guide-star altitude",
+        "`scale_r0_vk` needs r0 > 0 and L0 ≥ 0 on the configuration's layers and k > 0 (Real.rpow); nothing is claimed for other signs",
+        "constructor arguments are generated as float64/float32/integer ndarrays, lists, tuples of the same values (the theorems are "
+        "about the values); float32 arguments make the library do part of the geometry in single precision — covered by the "
+        "1e-5 tolerance (observed 5.6e-7), excluded from the bit-exact geometry correspondence and from the 2e-6 scaling laws",
     ]
     chk.notes = ["margins measured on the repaired tree (3000 generated configurations): largest |entry - covariance| = 1.1e-7 of the "
                  "largest entry (tolerance 1e-5), smallest eigenvalue >= -1.3e-8 of the trace (tolerance 1e-5); every breaking edit tried "
                  "(wrong block, scale, sign, offset, dropped layer, leaked state, transposed mask, cone sign, exponent) moved entries by "
                  ">= 1e-5 of the largest entry on some generated configuration",
+                 "round 3, repaired tree, 12 seeds x 250 configurations with mixed argument containers/dtypes: largest |entry - covariance| "
+                 "1.1e-7 (float64/int/list arguments), 5.6e-7 (some float32 argument) of the largest entry (tolerance 1e-5); smallest "
+                 "eigenvalue >= -9.1e-9 of the trace; scaling laws (tolerance 2e-6): additivity 1.1e-7, r0 1.6e-7, wavelength 9.3e-8; "
+                 "stand-in placement with off-axis guide stars: exact on every single-layer case",
                  "mirror search: the assembled matrix for wavelengths λ·2^m is exactly 4^m times the one for λ, so the mirror step is "
                  "searched over m on the real pre-mirror matrix and any hit is confirmed through make_covariance_matrix() with the "
                  "rescaled wavelengths before it is reported"]
